@@ -932,6 +932,15 @@ class CodeGen:
             bubble += arg_bubble
 
         label = self.label_for_func(ConcreteSignature(name, tuple(concrete_params)))
+        if label == asm.LabelRef('write_int'):
+            # write_int builds its digits downwards from just below its
+            # return address, so the buffer extends past the argument
+            # word we pushed.  Make sure the stack overflow checks know
+            # about the bytes it may use below our frame.
+            max_digits = len(str(self.max_signed + 1))
+            self.checkpoints.update(
+                self.stack.static_size + max(0, max_digits - self.word_size)
+            )
         yield asm.Add(self.fp, asm.State(self.fp), asm.IntLiteral(-offset))
         yield from self.goto(label)
         yield asm.Label(end_call)
